@@ -70,7 +70,7 @@ Definition dec_attr (l : list Z) : option (attr * list Z) :=
   | q :: t => val <- dec_bytes t ;; Some (mkAttr (fst lead) (fst name) (fst ws1) (fst ws2) q (fst val), snd val)
   end.
 
-(* a general piece: lead name vkind [w1 w2 [q] val] *)
+(* a general piece: lead name vkind [w1 w2 [q] val]   vkind: 0 none, 1 unquoted, 2 quoted, 3 quoted and cut by ?> *)
 Definition dec_gattr (l : list Z) : option (gattr * list Z) :=
   lead <- dec_bytes l ;; name <- dec_bytes (snd lead) ;;
   match snd name with
@@ -82,7 +82,10 @@ Definition dec_gattr (l : list Z) : option (gattr * list Z) :=
         if vk =? 1 then x <- dec_bytes (snd w2) ;; Some (mkG (fst lead) (fst name) (VUnq (fst w1) (fst w2) (fst x)), snd x)
         else match snd w2 with
              | [] => None
-             | q :: t' => x <- dec_bytes t' ;; Some (mkG (fst lead) (fst name) (VQuo (fst w1) (fst w2) q (fst x)), snd x)
+             | q :: t' =>
+                 x <- dec_bytes t' ;;
+                 Some (mkG (fst lead) (fst name)
+                           (if vk =? 3 then VQuoCut (fst w1) (fst w2) q (fst x) else VQuo (fst w1) (fst w2) q (fst x)), snd x)
              end
   end.
 
